@@ -13,7 +13,7 @@ CHECKS["C07"] = dict(
                 "the end) is compared byte for byte with the M-TS model; each leaseholder's cesium engine is read directly and the other engines are "
                 "inspected for strays; opens on never-created keys must fail; a commit that must be refused by one leaseholder must not be "
                 "acknowledged, and an acknowledged commit must be visible through a generated node. Sampled, not exhaustive; no absence claim."),
-    level_note=("Trusted: the M-TS model (harness/cesium/tsm, itself exercised against cesium by C01), distribution/mock's in-process transports "
+    level_note=("Added later: iterators with repeated keys, writers with per-channel authorities, a lower-authority intruder opened after an acknowledged round trip of the first writer, masked partial frames (ExcludeKeys), overrun writes of auto-commit writers without acknowledgements (the following commit must return an error, not hang). Trusted: the M-TS model (harness/cesium/tsm, itself exercised against cesium by C01), distribution/mock's in-process transports "
                 "(no real network, no message loss or reordering between two nodes), x/io/fs MemFS, rapid. One writer per index group at a time "
                 "(control contention is C05); reads use Next(TimeSpanMax) passes only (span stepping is C10); no channel deletion, no node "
                 "restart or failure; wall-clock auto-index writers are excluded. A write/commit/open that returns an error where the model "
